@@ -1,6 +1,18 @@
 ---- MODULE MC_TimestampsDays ----
-\* thorough: every calendar day of years 1..9999 (calendar inverse, 4-digit year, carry across the date line with an offset)
+\* thorough: every calendar day of years 1..9999.  The day number is the only initial-state choice (cheap);
+\* the work (calendar inverse, formatting across the date line, reading back) is done in the step, in parallel.
 EXTENDS Timestamps
-OnePC == {<<"millisecond","min">>}
-DayInputs == { LET cd == CivilDate(n) IN [y |-> cd.y, mo |-> cd.mo, d |-> cd.d, h |-> 23, mi |-> 30, s |-> 0, us |-> 1000, off |-> 0 - 60] : n \in 1..MaxOrdinal }
+VARIABLES day, done
+DInit == day \in 1..MaxOrdinal /\ done = FALSE /\ phase = "x" /\ inp = 0 /\ pc = 0 /\ text = <<>> /\ back = Bad /\ text2 = <<>>
+InputOf(n) == LET cd == CivilDate(n) IN [y |-> cd.y, mo |-> cd.mo, d |-> cd.d, h |-> 23, mi |-> 30, s |-> 0, us |-> 1000, off |-> 0 - 60]
+DayOK(n) ==
+  LET c == InputOf(n)
+      ok == InRange(Instant(c)) IN
+  /\ ValidDate(c.y, c.mo, c.d) /\ Ordinal(c.y, c.mo, c.d) = n
+  /\ ok => LET t == Format(c, "millisecond", "min") IN
+           /\ Acceptable(c, "millisecond", "min", t)
+           /\ Format(ParseText(t).c, "millisecond", "min") = t
+           /\ Instant(ParseText(t).c)[1] = n + 1          \* 23:30 at -01:00 is 00:30 UTC of the next day
+DNext == ~done /\ done' = TRUE /\ day' = day /\ UNCHANGED vars /\ Assert(DayOK(day), <<"day fails", day>>)
+DSpec == DInit /\ [][DNext]_<<day, done, vars>>
 ====
